@@ -1,0 +1,48 @@
+//go:build verif
+
+package rueidisprob
+
+// Exported views of unexported sizing and index computation, for the external model-based verification harness.
+// Nothing in this file is compiled without the "verif" build tag.
+
+// VerifSizing returns the number of bit positions / counter slots and the number of hash iterations a filter
+// built by NewBloomFilter, NewCountingBloomFilter or NewSlidingBloomFilter works with.
+func VerifSizing(f any) (size, hashIterations uint, ok bool) {
+	switch v := f.(type) {
+	case *bloomFilter:
+		return v.size, v.hashIterations, true
+	case *countingBloomFilter:
+		return v.size, v.hashIterations, true
+	case *slidingBloomFilter:
+		return v.size, v.hashIterations, true
+	}
+	return 0, 0, false
+}
+
+// VerifIndexes returns, per key and in order, the indexes the filter itself computes for the keys
+// (it calls the filter's own indexes method, the one Add/Exists/Remove use).
+func VerifIndexes(f any, keys []string) (out []string, ok bool) {
+	var buf []byte
+	switch v := f.(type) {
+	case *bloomFilter:
+		return append(out, v.indexes(keys, &buf)...), true
+	case *countingBloomFilter:
+		return append(out, v.indexes(keys, &buf)...), true
+	case *slidingBloomFilter:
+		return append(out, v.indexes(keys, &buf)...), true
+	}
+	return nil, false
+}
+
+// VerifKeys returns the Redis key names the filter uses (filter key first).
+func VerifKeys(f any) []string {
+	switch v := f.(type) {
+	case *bloomFilter:
+		return append([]string(nil), v.addMultiKeys...)
+	case *countingBloomFilter:
+		return append([]string(nil), v.addMultiKeys...)
+	case *slidingBloomFilter:
+		return append([]string(nil), v.addMultiKeys...)
+	}
+	return nil
+}
